@@ -156,6 +156,10 @@ var lockSites = []lockSite{
 		writes: map[string][]string{"repoManager.newVersion/= node.children": {"children"}},
 		choose: map[string]string{`branchname == "" || branchname == node.branch`: "then"},
 	},
+	// merge appends its child to the children list of every parent (no uniqueness check)
+	{name: "datastore.merge", pkg: "datastore", fn: "repoManager.merge",
+		writes: map[string][]string{"repoManager.merge/= node.children": {"children"}},
+	},
 }
 
 type lockWalker struct {
